@@ -4,7 +4,7 @@ from __future__ import annotations
 import ast
 from fractions import Fraction
 
-from ..core import call_name, dotted, kwarg, norm
+from ..core import call_name, ctext, dotted, kwarg, norm
 from ..norm import Normaliser, Poly, single_defs
 from ..util import assigned_targets
 
@@ -161,7 +161,7 @@ def check(ctx):
     rel = _find_arm(ch, ["Relevant"])
     inner = [s for s in rel.body if isinstance(s, ast.If) and "_get_physical_fanout_along" in norm(s.test)]
     ctx.require(len(inner) == 1 and inner[0].orelse, R, "mesh unicast: distributed/non-distributed split")
-    ctx.check(norm(inner[0].test) == "src_component._get_physical_fanout_along(dim_name) > 1", R, mesh, inner[0].test, "the non-distributed branch is not selected by physical fanout <= 1", "non-distributed <=> physical fanout <= 1")
+    ctx.check(norm(inner[0].test) == ctext("src_component._get_physical_fanout_along(dim_name) > 1"), R, mesh, inner[0].test, "the non-distributed branch is not selected by physical fanout <= 1", "non-distributed <=> physical fanout <= 1")
     nd = _arm_assignments(inner[0].orelse)
     ctx.require({"total_cost", "max_traffic"} <= set(nd), R, "mesh unicast assignments")
     cmp_(mesh, nd["total_cost"], nd["total_cost"], "last_fanout * volume * shape_repeats * (shape_repeats - 1) / 2", "mesh unicast (non-distributed) total hops")
